@@ -24,7 +24,7 @@ FIXED_ID = 99
 def op_menu(cols, fresh, more_tags=()):
     """Parameter shapes of every concrete unary operation over the given columns."""
     cols = sorted(cols)
-    ops = [("dedup",), ("slice", 1, None), ("slice", 0, 2), ("slice", 1, 2)]
+    ops = [("dedup",), ("slice", 1, None), ("slice", 0, 2), ("slice", 1, 2), ("slice", 2, 5), ("slice", 0, 3)]
     for n in range(len(cols) + 1):
         for sub in itertools.combinations(cols, n):
             ops.append(("proj", list(sub)))
@@ -98,6 +98,15 @@ def targets(cols, tier):
     return out
 
 
+def long_targets(cols):
+    """A few targets long enough (4 to 7 rows) for two windows with non-zero starts and finite stops to be told apart."""
+    keys = [c for c in cols if c.is_key]
+    tuples = list(itertools.product((0, 1), repeat=len(keys)))
+    pats = [[0, 1, 1, 0], [1, 0, 0, 1, 1], [0, 0, 1, 0, 1, 1, 0]]
+    return [consistent_rows(cols, [tuples[(i * 3 + k) % len(tuples)] if len(tuples) > 2 else tuples[k] for i, k in enumerate(pat)])
+            for pat in pats]
+
+
 _OPS = {}
 
 
@@ -119,6 +128,7 @@ def make_cases(rng, tier):
         tgts = targets(cols, tier)
         if len(tgts) > 40 and tier == "quick":
             tgts = rng.sample(tgts, 40)
+        tgts = tgts + long_targets(cols)
         leaf = ENG.make_leaf(set(cols), payload=iteration.RowSequence([]), name="L1")
         REG.names["L1"] = 1
         for cur in op_menu(cols, fresh_k, more_tags=[fresh_n]):
@@ -190,7 +200,7 @@ def run(ctx):
         "evaluations": len(cases), "distinct_nontrivial": len({c["key"] for c in cases if c["nontrivial"]}),
         "rule": "exhaustive sweep of the real commute(): every (new, existing) pair of concrete operation types with all "
                 "parameter shapes over small schemas (key and non-key columns), PartialJoin with five fixed operands, each "
-                "judged on every target of <= 2 rows (thorough: 3) over {0,1}; non-trivial = a move was reported",
+                "judged on every target of <= 2 rows (thorough: 3) over {0,1} plus three targets of 4 to 7 rows; non-trivial = a move was reported",
         "pairs": {k: {"calls": v[0], "moves": v[1]} for k, v in sorted(pairs.items())},
         "traces_validated_against_impl": summ["evaluated"], "judgement": summ, "exhaustive": True,
         "samples": [cases[5]["json"], cases[-1]["json"]],
